@@ -400,6 +400,9 @@ TASK_STATE_MACHINE_DATA = {
         events.ACTION_CANCELED: statuses.CANCELED,
     },
     statuses.RETRYING: {
+        events.ACTION_REQUESTED: statuses.REQUESTED,
+        events.ACTION_SCHEDULED: statuses.SCHEDULED,
+        events.ACTION_DELAYED: statuses.DELAYED,
         events.ACTION_RUNNING: statuses.RUNNING,
         events.ACTION_CANCELING: statuses.CANCELING,
         events.ACTION_CANCELED: statuses.CANCELED,
